@@ -5,8 +5,9 @@
    the disparity axis, the percentile are arbitrary data: every statement is for ALL of them,
    all curve lengths, all volumes. *)
 From Coq Require Import String Ascii.
-From Coq Require Import ZArith QArith List Bool.
-From Pandora Require Import Model.Confidence Spec.Confidence Proofs.ConfidenceP.
+From Coq Require Import ZArith QArith Qabs List Bool.
+From Pandora Require Import Lib.Ext Model.Confidence Spec.Confidence Proofs.ConfidenceP.
+From Pandora Require Import Model.Wta Model.ConfPipeline Proofs.StdP Proofs.ConfidenceRegP Proofs.ConfPipelineP.
 Import ListNotations.
 Open Scope Z_scope.
 
@@ -161,28 +162,113 @@ Theorem C12_regularisation_q1_widens : forall inf sup amb thr k depth q r c,
     /\ (forall x, cell sup r c = Some (Some x) -> exists y, cell (snd res) r c = Some (Some y) /\ (x <= y)%Q).
 Proof. exact regularisation_q1_widens. Qed.
 
-(* std_intensity.  Full statement (NOT proved): the model's variance raster, computed like
-   compute_mean_raster / compute_std_raster with two passes of cumulative sums, is at every window
-   position the mean of the squares minus the squared mean of the w x w left window. *)
-Definition window (w : nat) (img : list (list Q)) (r c : nat) : list Q :=
-  concat (map (fun row => firstn w (skipn c row)) (firstn w (skipn r img))).
-Definition C12_std_def_full : Prop :=
+(* ---- std_intensity.  [window w img r c] (Spec) is the w x w window of top-left corner (r, c), row by
+   row; [window_variance] its mean of squares minus squared mean.
+   (i) each 1-D pass of compute_mean_raster (window differences of the cumulative sums preceded by a
+   zero) is the direct sliding-window sum: every window size, list, position *)
+Theorem C12_std_one_pass_def :
+  forall w l i, (i + w <= length l)%nat ->
+    exists y, nth_error (winsum w l) i = Some y /\ (y == qsum (firstn w (skipn i l)))%Q.
+Proof. exact std_def_1d. Qed.
+
+(* (ii) the two passes through the transposition: the model's variance raster, computed like
+   compute_mean_raster / compute_std_raster, is at EVERY window position of EVERY rectangular image the
+   variance of the w x w window (every window size > 0) *)
+Theorem C12_std_var_raster_def :
   forall (w : nat) img r c, (0 < w)%nat ->
     (forall row, In row img -> length row = length (hd [] img)) ->
     (r + w <= length img)%nat -> (c + w <= length (hd [] img))%nat ->
     exists v, cell (var_raster (Z.of_nat w) img) r c = Some v /\
-      let n := inject_Z (Z.of_nat (w * w)) in
-      (v == qsum (map (fun x => x * x) (window w img r c)) / n
-            - (qsum (window w img r c) / n) * (qsum (window w img r c) / n))%Q.
-(* Proved part: each 1-D pass (window differences of the cumulative sums preceded by a zero) is the
-   direct sliding-window sum, for every window size, every list, every position.  Missing: the
-   composition of the two passes through the transposition (a lemma on [transpose]) and the division;
-   the 2-D result is covered by the correspondence (model variance vs band^2) and by the oracle
-   (numpy std of each window) on every run. *)
-Theorem C12_std_def_partial :
-  forall w l i, (i + w <= length l)%nat ->
-    exists y, nth_error (winsum w l) i = Some y /\ (y == qsum (firstn w (skipn i l)))%Q.
-Proof. exact std_def_1d. Qed.
+      (v == window_variance w (window w img r c))%Q.
+Proof. exact std_var_raster. Qed.
+
+(* (iii) the band of StdIntensity.confidence_prediction (model [std_band]: the band holds the variance,
+   the square root is not rational), for every odd window that fits in the image, every image
+   (NaN pixels count as 0, as np.nancumsum makes them), every pixel (r, c) of the image:
+   - when the window centred on (r, c) lies inside the image the band is finite and is the variance of
+     that window, except that a variance below eps * |mean of squares| is replaced by 0 (the code's
+     "avoid very small values", eps = 10**-15 as data);
+   - everywhere else (the border of width (w-1)/2) the band is NaN. *)
+Theorem C12_std_def :
+  forall (eps : Q) (w : nat) (img : list (list oq)) (r c : nat),
+    Nat.odd w = true ->
+    (forall row, In row img -> length row = length (hd [] img)) ->
+    (w <= length img)%nat -> (w <= length (hd [] img))%nat ->
+    (r < length img)%nat -> (c < length (hd [] img))%nat ->
+    let off := ((w - 1) / 2)%nat in
+    if in_interior off (length img) (length (hd [] img)) r c
+    then
+      exists v, cell (std_band eps (Z.of_nat w) img) r c = Some (Some v) /\
+        let win := window w (map (map nan0) img) (r - off) (c - off) in
+        let vw := window_variance w win in
+        let mp2 := (qsum (map (fun x => x * x) win) / inject_Z (Z.of_nat (w * w)))%Q in
+        ((eps * Qabs mp2 <= vw)%Q -> (v == vw)%Q) /\ ((vw < eps * Qabs mp2)%Q -> (v == 0)%Q)
+    else cell (std_band eps (Z.of_nat w) img) r c = Some None.
+Proof. exact std_def. Qed.
+
+(* [in_interior] is the plain test "the window centred on (r, c) fits" *)
+Theorem C12_std_interior_test : forall off nr nc r c,
+  in_interior off nr nc r c = true <-> (off <= r /\ r + off < nr /\ off <= c /\ c + off < nc)%nat.
+Proof.
+  intros. unfold in_interior. rewrite !andb_true_iff, !Nat.leb_le, !Nat.ltb_lt. tauto.
+Qed.
+
+(* ---- interval bounds WITH regularisation still bracket the winner when quantile_regularization is
+   exactly 1 (C12_bounds_bracket_wta + C12_regularisation_q1_widens): every volume with two distinct
+   finite costs, min and max measures, threshold <= 1, every ambiguity band / threshold / kernel /
+   depth, every valid pixel (its curve has a winner).  [regularized_bounds] = bounds_map then regularize,
+   what the step writes (X12 fid 10). *)
+Theorem C12_bounds_regularised_q1_bracket_wta :
+  forall (v : volume) a b is_min thr disps amb athr k depth q r c cur w,
+    In (Some a) (concat (concat v)) -> In (Some b) (concat (concat v)) -> ~ (a == b)%Q ->
+    (thr <= 1)%Q -> increasing disps ->
+    (q == 1)%Q ->
+    cell v r c = Some cur -> length disps = length cur -> wta is_min cur = Some w ->
+    let res := regularized_bounds is_min thr disps v amb athr k depth q in
+    exists yinf dw ysup,
+      cell (fst res) r c = Some (Some yinf) /\ cell (snd res) r c = Some (Some ysup)
+      /\ znth_error disps w = Some dw /\ (yinf <= dw)%Q /\ (dw <= ysup)%Q.
+Proof. exact regularized_bracket. Qed.
+
+(* ---- transparency for the built-in steps that have a model (Model/ConfPipeline.v).
+   WinnerTakesAll.to_disp (Model/Wta.v, tied to the code by C03's correspondence) is handed the bands of
+   the cost volume: disparity map, validity mask, cost volume and disp_indices do not depend on them,
+   and the bands are given to the disparity dataset unchanged *)
+Theorem C12_wta_ignores_bands :
+  forall mx B nr nc disps invalid cv (conf conf' : Z -> Z -> list (option Q)) mask,
+    let o := to_disp mx B nr nc disps invalid cv conf mask in
+    let o' := to_disp mx B nr nc disps invalid cv conf' mask in
+    o_disp o = o_disp o' /\ o_mask o = o_mask o' /\ o_cv o = o_cv o' /\ o_disp_indices o = o_disp_indices o'
+    /\ o_conf o = conf.
+Proof. exact wta_ignores_bands. Qed.
+
+(* each built-in step (wta disparity, cbca aggregation, refinement), run on the WHOLE state: its core
+   result (cost volume, disparity map, validity mask, raised or not) is the same whatever bands it is given *)
+Theorem C12_builtin_steps_ignore_bands : forall s, is_builtin s = true -> forall c b b',
+  fst (bexec1 (c, b) s) = fst (bexec1 (c, b') s).
+Proof. exact builtin_core_indep. Qed.
+
+(* the abstract theorem instantiated: for EVERY sequence (any length, any order, repetitions) of
+   confidence steps (ambiguity, risk, interval bounds with or without regularisation, std_intensity,
+   any parameters, any step names) and built-in steps (any parameters), deleting the confidence steps
+   leaves the core -- cost volume, disparity map, validity mask -- equal, from any initial bands *)
+Theorem C12_confidence_transparent_builtin :
+  forall (p : list bstep) (c : option core) (b b' : option conf),
+    fst (bexec p (c, b)) = fst (bexec (filter is_builtin p) (c, b')).
+Proof. exact transparent_builtin. Qed.
+
+(* read on runs that do not raise (a confidence step raises when the ambiguity band its regularisation
+   asks for is missing; refinement raises without a disparity map or on a division by zero) *)
+Theorem C12_confidence_transparent_builtin_run :
+  forall (p : list bstep) (k : core) (b b' : conf) (k1 : core) (b1 : conf),
+    bexec p (Some k, Some b) = (Some k1, Some b1) ->
+    exists bo, bexec (filter is_builtin p) (Some k, Some b') = (Some k1, bo).
+Proof. exact transparent_builtin_run. Qed.
+
+(* a [None] component means "a step has raised"; it is final, so what the model's later steps do after
+   a raise never shows in a result *)
+Theorem C12_raised_is_final : forall p st, raised st -> raised (bexec p st).
+Proof. exact raised_sticky_run. Qed.
 
 (* Non-vacuity: a volume with two distinct finite costs, a NaN hole and a tie; hypotheses of the
    bracket theorem hold and the concrete values are the expected ones. *)
@@ -193,6 +279,57 @@ Example C12_example_hyps :
   /\ amb_pixel 1 5 [0%Q; (1#2)%Q] ex_curve = 7
   /\ risk_pixel 1 5 [0%Q; (1#2)%Q] ex_curve = (Some ((2 + 3) / 2)%Q, Some ((0 + 0) / 2)%Q).
 Proof. repeat split; vm_compute; reflexivity. Qed.
+
+(* Non-vacuity of C12_std_def: a 3 x 4 image with a NaN pixel, window 3: two interior pixels (finite
+   variance of the window, the NaN pixel counted as 0), NaN everywhere else; the hypotheses hold. *)
+Definition ex_img : list (list oq) :=
+  [[Some 1%Q; Some 2%Q; Some 3%Q; Some 4%Q]; [Some 5%Q; None; Some 7%Q; Some 8%Q]; [Some 9%Q; Some 10%Q; Some 11%Q; Some 13%Q]].
+Example C12_example_std :
+  Nat.odd 3 = true /\ (forall row, In row ex_img -> length row = length (hd [] ex_img))
+  /\ map (map (option_map Qred)) (std_band (1 # 1000000000000000) 3 ex_img)
+     = [[None; None; None; None]; [None; Some (134 # 9)%Q; Some (1424 # 81)%Q; None]; [None; None; None; None]]
+  /\ Qred (window_variance 3 (window 3 (map (map nan0) ex_img) 0 1)) = (1424 # 81)%Q.
+Proof.
+  split; [reflexivity|]. split; [|split; vm_compute; reflexivity].
+  intros row [H|[H|[H|[]]]]; subst; reflexivity.
+Qed.
+
+(* Non-vacuity of the built-in transparency: a 1 x 2 cost volume with 3 disparities, pipeline
+   ambiguity, interval_bounds.b (regularised with the ambiguity band), wta, std_intensity.s, refinement:
+   the run does not raise, the bands are the expected ones in both datasets, and the disparity map and
+   mask equal those of the pipeline wta, refinement started WITHOUT bands *)
+Definition ex_core : core :=
+  mkCore 1 2 false 1 [(-1)%Q; 0%Q; 1%Q]
+         (fun r c => if (c =? 0)%Z then [Some (Fin 3%Q); Some (Fin 1%Q); Some (Fin 2%Q)]
+                     else [Some (Fin 5%Q); None; Some (Fin 4%Q)])
+         (fun _ _ => 0%Z) None.
+Definition ex_pipeline : list bstep :=
+  [SConf (codes "cost_volume_confidence") (MAmb false 1 [0%Q; (1#4)%Q]);
+   SConf (codes "cost_volume_confidence.b") (MBounds (9#10) (Some (codes "confidence_from_ambiguity", (1#2)%Q, 3%Z, 1%Z, 1%Q)));
+   SWta 100 None;
+   SConf (codes "cost_volume_confidence.s") (MStd (1 # 1000000000000000) 1 [[Some 7%Q; Some 9%Q]]);
+   SRefine (Refine.mkK 3 8) Refine.Vfit].
+Definition names_of_ds (d : dsbands band) : option (list name) :=
+  match d with Some (Some l) => Some (map fst l) | Some None => Some [] | None => None end.
+Definition show (st : state) :=
+  match st with
+  | (Some k, Some (bd, bc)) =>
+    Some (match k_disp k with
+          | Some (d, m) => Some (map (fun c => (d 0%Z c, m 0%Z c)) [0%Z; 1%Z])
+          | None => None end, names_of_ds bd, names_of_ds bc)
+  | _ => None
+  end.
+Example C12_example_builtin_pipeline :
+  show (bexec ex_pipeline (Some ex_core, Some (None, Some None)))
+  = Some (Some [(Some (1 # 4)%Q, 0%Z); (Some 1%Q, 8%Z)],
+          Some (map codes ["confidence_from_ambiguity"; "confidence_from_interval_bounds_inf.b";
+                           "confidence_from_interval_bounds_sup.b"; "confidence_from_intensity_std.s"]%string),
+          Some (map codes ["confidence_from_ambiguity"; "confidence_from_interval_bounds_inf.b";
+                           "confidence_from_interval_bounds_sup.b"; "confidence_from_intensity_std.s"]%string))
+  /\ match show (bexec (filter is_builtin ex_pipeline) (Some ex_core, Some (None, Some None))) with
+     | Some (dm, _, _) => dm = Some [(Some (1 # 4)%Q, 0%Z); (Some 1%Q, 8%Z)]
+     | None => False end.
+Proof. split; vm_compute; reflexivity. Qed.
 
 Print Assumptions C12_bands_append_only.
 Print Assumptions C12_suffix_rule.
@@ -211,4 +348,13 @@ Print Assumptions C12_wta_exists.
 Print Assumptions C12_bounds_bracket_wta.
 Print Assumptions C12_maps_are_pixelwise.
 Print Assumptions C12_regularisation_q1_widens.
-Print Assumptions C12_std_def_partial.
+Print Assumptions C12_std_one_pass_def.
+Print Assumptions C12_std_var_raster_def.
+Print Assumptions C12_std_def.
+Print Assumptions C12_std_interior_test.
+Print Assumptions C12_bounds_regularised_q1_bracket_wta.
+Print Assumptions C12_wta_ignores_bands.
+Print Assumptions C12_builtin_steps_ignore_bands.
+Print Assumptions C12_confidence_transparent_builtin.
+Print Assumptions C12_confidence_transparent_builtin_run.
+Print Assumptions C12_raised_is_final.
